@@ -110,10 +110,14 @@ def py_str(interp, v):
     if isinstance(v, (Sym, SymSeq)):
         raise Unsupported('str() of %r' % (v,))
     if isinstance(v, Obj):
-        m = interp._class_lookup(v.cls, '__str__')
         from .interp import interpretable, closure_of
-        if m is not None and isinstance(m, types.FunctionType) and interpretable(m):
-            return interp.call(closure_of(m), [v], {})
+        for nm in ('__str__', '__repr__'):
+            m = interp._class_lookup(v.cls, nm)
+            if m is not None and isinstance(m, types.FunctionType) and interpretable(m):
+                return interp.call(closure_of(m), [v], {})
+        if issubclass(v.cls, BaseException):
+            a = v.fields.get('args', ())
+            return py_str(interp, a[0]) if len(a) == 1 else ('' if not a else Unsupported)
         raise Unsupported('str() of object %r' % (v,))
     if not is_concrete(v):
         raise Unsupported('str() of container with symbolic content')
